@@ -360,7 +360,7 @@ func TestC13(t *testing.T) {
 			rt.Repeat(map[string]func(*rapid.T){
 				"define": func(rt *rapid.T) {
 					if m.finished {
-						rt.Skip("history ended with an undefined-slot record")
+						return // the history ended with an undefined-slot record
 					}
 					local := d.Int(0, 15, "local")
 					if local == fidLocal {
@@ -374,7 +374,7 @@ func TestC13(t *testing.T) {
 					// changed: byte order only, or one field dropped, or the
 					// field list reversed
 					if m.finished {
-						rt.Skip("ended")
+						return
 					}
 					var defined []int
 					for l := 0; l < 16; l++ {
@@ -383,7 +383,11 @@ func TestC13(t *testing.T) {
 						}
 					}
 					if len(defined) == 0 {
-						rt.Skip("nothing defined")
+						// nothing to vary yet: define something instead (an
+						// action never skips: rapid gives up on a history
+						// after too many skipped draws in a row)
+						m.define(d.Int(0, 15, "local"))
+						return
 					}
 					l := defined[d.Int(0, len(defined)-1, "which")]
 					def := *m.slots[l]
@@ -409,7 +413,7 @@ func TestC13(t *testing.T) {
 				},
 				"data": func(rt *rapid.T) {
 					if m.finished {
-						rt.Skip("ended")
+						return
 					}
 					var defined []int
 					for l := 0; l < 16; l++ {
@@ -418,13 +422,14 @@ func TestC13(t *testing.T) {
 						}
 					}
 					if len(defined) == 0 {
-						rt.Skip("nothing defined")
+						m.define(d.Int(0, 15, "local"))
+						return
 					}
 					m.data(defined[d.Int(0, len(defined)-1, "which")], false)
 				},
 				"compressedData": func(rt *rapid.T) {
 					if m.finished {
-						rt.Skip("ended")
+						return
 					}
 					var defined []int
 					for l := 0; l < 4; l++ {
@@ -433,13 +438,14 @@ func TestC13(t *testing.T) {
 						}
 					}
 					if len(defined) == 0 {
-						rt.Skip("no slot 0-3 defined")
+						m.define(d.Int(0, 3, "local03"))
+						return
 					}
 					m.data(defined[d.Int(0, len(defined)-1, "which")], true)
 				},
 				"dataUndefined": func(rt *rapid.T) {
 					if m.finished || len(m.s.Recs) < 6 || d.Int(0, 24, "undef") != 17 {
-						rt.Skip("not now")
+						return
 					}
 					var free []int
 					for l := 0; l < 16; l++ {
@@ -448,18 +454,12 @@ func TestC13(t *testing.T) {
 						}
 					}
 					if len(free) == 0 {
-						rt.Skip("all slots defined")
+						return
 					}
 					l := free[d.Int(0, len(free)-1, "free")]
 					m.s.Recs = append(m.s.Recs, fitmodel.Rec{Local: byte(l), Compressed: l < 4 && d.Bool("c")})
 					m.finished = true
 					m.labels["ends-with-undefined-slot-record"]++
-				},
-				"idle": func(rt *rapid.T) {
-					// keeps a step enabled once the history has ended
-					if !m.finished {
-						rt.Skip("history still open")
-					}
 				},
 				"": verify,
 			})
